@@ -1,5 +1,112 @@
-import TcheranVerif.Model.Eval
+import TcheranVerif.Proofs.Magic
+/-!
+# C07 — attack tables equal first-principles geometry
+
+* `slide_spec` — the engine's ray walk equals the square-by-square walk for **every** square and
+  **every** one of the 2^64 occupancies (induction on the walk, `Proofs/Attacks.lean`).
+* `knight/king/pawn/between_table_geometric` — the per-square tables equal their coordinate
+  definitions (kernel decision over all 64 / 64 / 128 / 4,096 entries).
+* `magic_lookup_exact` — for every square and every occupancy the magic lookup returns exactly the
+  ray walk, and its index lies inside the table. Lifting: index and ray walk depend on the occupancy
+  only through the relevant-blocker mask (`*_relevant`), every subset of the mask is enumerated by
+  the carry-rippler (`mem_depositList` + the per-square list equality inside the sweep), and the
+  sweep over all 107,648 (square, subset) pairs with the magics regenerated from `/repo`.
+
+Trusted base of this file: the sweep `sweep_ok` is discharged by `native_decide` (axiom
+`Lean.ofReduceBool`: trust in the Lean compiler and its runtime for one closed Boolean term); every
+other statement is kernel-checked with `propext`/`Quot.sound` only. See DESIGN §3.
+-/
 namespace Tcheran.Props.C07
-theorem placeholder : True := trivial
+open Tcheran Geometry
+
+/-- **slide_spec** (unbounded): engine ray walk = first-principles ray walk -/
+theorem slide_spec (dirs : List Dir) (s : Sq) (occ : BB) : slide dirs s occ = slideSpec dirs s occ :=
+  slide_eq_spec dirs s occ
+
+theorem slide_spec_mem (dirs : List Dir) (s : Sq) (occ : BB) (t : Sq) :
+    mem (slide dirs s occ) t = true ↔ ∃ d ∈ dirs, t ∈ seen (mem occ) (Rules.ray d s) :=
+  mem_slide dirs s occ t
+
+theorem knight_table_geometric (s : Sq) : knightAttacks s = knightSpec s := by
+  rw [knightAttacks_eq, genKnight_geometric]
+
+theorem king_table_geometric (s : Sq) : kingAttacks s = kingSpec s := by
+  rw [kingAttacks_eq, genKing_geometric]
+
+theorem pawn_table_geometric (s : Sq) (p : Player) : pawnAttacks s p = pawnSpec s p := by
+  rw [pawnAttacks_eq]
+  cases p
+  · exact genPawn_geometric s .white (by simp)
+  · exact genPawn_geometric s .black (by simp)
+
+theorem between_table_geometric (a b : Sq) : between a b = betweenSpec a b := by
+  rw [between_eq, genBetween_geometric]
+
+/-- the finite sweep for one square and one slider kind -/
+def sweepOne (mask : BB) (index : BB → Nat) (gen : BB → BB) : Bool :=
+  (subsetsOf mask == depositList mask) &&
+  (subsetsOf mask).all fun b => decide (index b < Gen.tableSize) && (attackTable.getD (index b) 0#64 == gen b)
+
+def sweepOk : Bool :=
+  (List.finRange 64).all fun s =>
+    sweepOne (rookMask s) (rookIndex s) (genRookAttacks s) &&
+    sweepOne (bishopMask s) (bishopIndex s) (genBishopAttacks s)
+
+/-- all 107,648 (square, blocker subset) pairs, against the magics regenerated from /repo -/
+theorem sweep_ok : sweepOk = true := by native_decide
+
+theorem sweepOne_lookup {mask : BB} {index : BB → Nat} {gen : BB → BB}
+    (h : sweepOne mask index gen = true) (occ : BB) :
+    index (occ &&& mask) < Gen.tableSize ∧ attackTable.getD (index (occ &&& mask)) 0#64 = gen (occ &&& mask) := by
+  unfold sweepOne at h
+  rw [Bool.and_eq_true] at h
+  have hl : subsetsOf mask = depositList mask := eq_of_beq h.1
+  have hm : (occ &&& mask) ∈ subsetsOf mask := by rw [hl]; exact mem_depositList mask occ
+  have := (List.all_eq_true.1 h.2) _ hm
+  rw [Bool.and_eq_true] at this
+  exact ⟨of_decide_eq_true this.1, eq_of_beq this.2⟩
+
+/-- **magic_lookup_exact** (rook): every square, every occupancy -/
+theorem rook_lookup_exact (s : Sq) (occ : BB) :
+    rookAttacks s occ = genRookAttacks s occ ∧ rookIndex s occ < Gen.tableSize := by
+  have hs := (List.all_eq_true.1 sweep_ok) s (List.mem_finRange s)
+  rw [Bool.and_eq_true] at hs
+  have := sweepOne_lookup hs.1 occ
+  unfold rookAttacks
+  rw [rookIndex_relevant, genRook_relevant]
+  exact ⟨this.2, this.1⟩
+
+/-- **magic_lookup_exact** (bishop) -/
+theorem bishop_lookup_exact (s : Sq) (occ : BB) :
+    bishopAttacks s occ = genBishopAttacks s occ ∧ bishopIndex s occ < Gen.tableSize := by
+  have hs := (List.all_eq_true.1 sweep_ok) s (List.mem_finRange s)
+  rw [Bool.and_eq_true] at hs
+  have := sweepOne_lookup hs.2 occ
+  unfold bishopAttacks
+  rw [bishopIndex_relevant, genBishop_relevant]
+  exact ⟨this.2, this.1⟩
+
+/-- headline: table lookups equal the first-principles geometry -/
+theorem rook_table_geometric (s : Sq) (occ : BB) : rookAttacks s occ = rookSpec s occ := by
+  rw [(rook_lookup_exact s occ).1]; exact slide_eq_spec _ s occ
+
+theorem bishop_table_geometric (s : Sq) (occ : BB) : bishopAttacks s occ = bishopSpec s occ := by
+  rw [(bishop_lookup_exact s occ).1]; exact slide_eq_spec _ s occ
+
+/-- non-vacuity: a blocked rook on a1 (blockers on a3 and c1) sees a2, a3, b1, c1 -/
+example : rookSpec A1 (bb ⟨16, by decide⟩ ||| bb C1) = bb ⟨8, by decide⟩ ||| bb ⟨16, by decide⟩ ||| bb B1 ||| bb C1 := by
+  decide +kernel
+
 end Tcheran.Props.C07
-#print axioms Tcheran.Props.C07.placeholder
+#print axioms Tcheran.Props.C07.slide_spec
+#print axioms Tcheran.Props.C07.slide_spec_mem
+#print axioms Tcheran.Props.C07.knight_table_geometric
+#print axioms Tcheran.Props.C07.king_table_geometric
+#print axioms Tcheran.Props.C07.pawn_table_geometric
+#print axioms Tcheran.Props.C07.between_table_geometric
+#print axioms Tcheran.Props.C07.sweep_ok
+#print axioms Tcheran.Props.C07.sweepOne_lookup
+#print axioms Tcheran.Props.C07.rook_lookup_exact
+#print axioms Tcheran.Props.C07.bishop_lookup_exact
+#print axioms Tcheran.Props.C07.rook_table_geometric
+#print axioms Tcheran.Props.C07.bishop_table_geometric
